@@ -2,52 +2,83 @@ import Bng.Proof.Index
 /-
   C20, component `index` — "subscriber-identifying keys map to at most one subscriber; forward and reverse lookups
   agree; release does not disturb other mappings", for the secondary indexes of subscriber.Manager (`submgr`),
-  state.Store (`stLease` = leases and sessions, `stSub` = subscribers) and allocator.MemoryAllocationStore
-  (`memstore`), all instances of the one generic model Bng.Index with the code's exact behaviour.
+  state.Store (`stLease` = leases and sessions, `stSub` = subscribers, `stNat` = NAT bindings) and
+  allocator.MemoryAllocationStore (`memstore`, including its UnmarshalJSON load path), all instances of the one
+  generic model Bng.Index with the code's exact behaviour.
 
-  What holds for the code AS IT IS (every history):
-    index_sound            generated ids never name a live primary (all flavours)
-    index_sound_submgr     Manager.byMAC and the session map are mutually inverse
-    index_sound_memstore   every live allocation is found by its address; no two live allocations share an address
-  What holds only on restricted histories (`_partial`):
-    index_bijection_inv_partial, index_release_frame_partial
-        hypotheses: `OnePerKey` (complement = finding D59) and `NoRekey` (complement = finding KF-index-rekey)
+  What holds for the code AS IT IS:
+    index_sound            every history, every flavour: generated ids never name a live primary
+    index_sound_submgr     every history: Manager.byMAC and the session map are mutually inverse
+    index_sound_memstore   every history whose LOADS are address-injective (`LoadsInj`; in particular every history
+                           without `load`): every live allocation is found by its address, no two share an address.
+                           Without that hypothesis it is false: `D59_witness_memstore_load`.
+  What holds PER KEY on histories that are clean for THAT key (`_partial`; other keys may be abused at will):
+    index_bijection_key_partial, index_release_frame_key_partial
+        hypotheses `OnePerKeyAt c s v` (complement = finding D59) and `NoRekeyAt c s v` (complement = KF-index-rekey)
+    index_bijection_inv_partial, index_release_frame_partial   — the all-keys corollaries
   What fails (witnesses, by evaluation of the model; the same histories are in corpus/index and fail on the real code):
-    D59_witness_submgr, D59_witness_statestore, D59_witness_statestore_sub
-    rekey_witness_memstore, rekey_witness_statestore, rekey_witness_submgr
-  For MemoryAllocationStore D59 itself does NOT occur: `index_sound_memstore` is its refutation; what does occur there
-  is the stale entry of `rekey_witness_memstore`.
+    D59_witness_submgr, D59_witness_statestore, D59_witness_statestore_sub, D59_witness_statestore_nat,
+    D59_witness_memstore_load, rekey_witness_memstore, rekey_witness_statestore, rekey_witness_submgr
+
+  Hypotheses versus the driver's exclusion clauses (Bng.Index.exclD59 / exclRekey, evaluated per key on the monitor's
+  bookkeeping):
+    * a key is in the monitor's `shared` list exactly from the accepted operation at which `opOnePerKeyAt` fails for
+      it, so ¬OnePerKeyAt is the history part of exclD59.  The monitor forgets the key again once no live primary
+      carries it; the theorems express the same by starting from ANY reachable state `run c init ops0` in which the
+      key's entry agrees with the primary map (e.g. the key is free: `key_agrees_of_free`).
+    * the monitor's `moved` list records BOTH the old and the new key of every accepted re-keying of a live primary,
+      whatever the code path; `opNoRekeyAt` is weaker (so the theorems are stronger): it only forbids taking `(s, v)`
+      away through create-under-a-live-id / assign, or adding/removing it through an update that does not re-index;
+      re-keying through UpdateSubscriber (which re-indexes) or onto a key through create/assign is allowed.
+    * exclD59 / exclRekey additionally require the shape of the failing answer (nothing found / stale entry); the
+      theorems need no such case split.
 -/
 namespace Bng.Spec.C20Index
 open Bng Bng.Index
 
 /-! ### decidability of the history hypotheses (so that the non-vacuity examples are checked by evaluation) -/
 
-def decOnePerKey (c : Cfg) : (st : State) → (ops : List Op) → Decidable (OnePerKey c st ops)
+def decOnePerKeyAt (c : Cfg) (s : Bool) (v : Nat) : (st : State) → (ops : List Op) → Decidable (OnePerKeyAt c s v st ops)
   | _, [] => isTrue trivial
   | st, op :: rest =>
-    have := decOnePerKey c (step c st op).1 rest
+    have := decOnePerKeyAt c s v (step c st op).1 rest
     inferInstanceAs (Decidable (_ ∧ _))
 
-def decNoRekey (c : Cfg) : (st : State) → (ops : List Op) → Decidable (NoRekey c st ops)
+def decNoRekeyAt (c : Cfg) (s : Bool) (v : Nat) : (st : State) → (ops : List Op) → Decidable (NoRekeyAt c s v st ops)
   | _, [] => isTrue trivial
   | st, op :: rest =>
-    have := decNoRekey c (step c st op).1 rest
+    have := decNoRekeyAt c s v (step c st op).1 rest
     inferInstanceAs (Decidable (_ ∧ _))
 
-instance (c : Cfg) (st : State) (ops : List Op) : Decidable (OnePerKey c st ops) := decOnePerKey c st ops
-instance (c : Cfg) (st : State) (ops : List Op) : Decidable (NoRekey c st ops) := decNoRekey c st ops
+def decLoadsInj (s : Bool) : (ops : List Op) → Decidable (LoadsInj s ops)
+  | [] => isTrue trivial
+  | .load _ :: rest =>
+    have := decLoadsInj s rest
+    inferInstanceAs (Decidable (_ ∧ _))
+  | .create _ _ _ :: rest => decLoadsInj s rest
+  | .update _ _ _ :: rest => decLoadsInj s rest
+  | .setKey _ _ _ :: rest => decLoadsInj s rest
+  | .delete _ :: rest => decLoadsInj s rest
+  | .get _ :: rest => decLoadsInj s rest
+  | .byKey _ _ :: rest => decLoadsInj s rest
+  | .list :: rest => decLoadsInj s rest
+
+instance (c : Cfg) (s : Bool) (v : Nat) (st : State) (ops : List Op) : Decidable (OnePerKeyAt c s v st ops) :=
+  decOnePerKeyAt c s v st ops
+instance (c : Cfg) (s : Bool) (v : Nat) (st : State) (ops : List Op) : Decidable (NoRekeyAt c s v st ops) :=
+  decNoRekeyAt c s v st ops
+instance (s : Bool) (ops : List Op) : Decidable (LoadsInj s ops) := decLoadsInj s ops
 
 /-! ### unconditional theorems -/
 
-/-- Every flavour, every history: every live primary's id is below the id counter — so the id the code generates
-    for a new primary (`create` without a preset id) never names a live primary, and the create that uses it does
-    not replace one. -/
+/-- Every flavour, every history (loads included): every live primary's id is below the id counter — so the id the
+    code generates for a new primary (`create` without a preset id) never names a live primary, and the create that
+    uses it does not replace one. -/
 theorem index_sound (c : Cfg) (ops : List Op) :
     (∀ id r, AMap.lookup (run c init ops).prim id = some r → id < (run c init ops).next) ∧
     (∀ k0 k1 id, (step c (run c init ops) (.create none k0 k1)).2 = .okId id →
       AMap.lookup (run c init ops).prim id = none) := by
-  have hF : Fresh (run c init ops) := fresh_run c (fun id r h => by simp [init] at h) ops
+  have hF : Fresh (run c init ops) := fresh_run c fresh_init ops
   refine ⟨hF, ?_⟩
   intro k0 k1 id h
   have hid : id = (run c init ops).next := by
@@ -79,25 +110,26 @@ theorem index_sound_submgr (ops : List Op) :
       ∃ r, AMap.lookup (run submgr init ops).prim id = some r ∧ r.k0 = some m) ∧
     (∀ id id' r r' m, AMap.lookup (run submgr init ops).prim id = some r →
       AMap.lookup (run submgr init ops).prim id' = some r' → r.k0 = some m → r'.k0 = some m → id = id') := by
-  have hI : InvS false (run submgr init ops) :=
-    run_submgr_invS0 (inv_init.slot false) inv_init.fresh ops
-  refine ⟨fun id r m h hk => hI.fwd id r m h hk, fun m id h => hI.bwd m id h, ?_⟩
+  have hI : ∀ v, KInv false v (run submgr init ops) :=
+    run_submgr_kinv0 (fun v => kinv_init false v) fresh_init ops
+  refine ⟨fun id r m h hk => (hI m).fwd id r h hk, fun m id h => (hI m).bwd id h, ?_⟩
   intro id id' r r' m h h' hk hk'
-  have a := hI.fwd id r m h hk
-  have b := hI.fwd id' r' m h' hk'
-  rw [a] at b
-  simpa using b
+  exact (hI m).unique h' hk' h hk
 
-/-- allocator.MemoryAllocationStore, every history (no hypothesis): every live allocation is found by its address,
-    and no two live allocations share an address — finding D59 does NOT occur in this type (SaveAllocation refuses
-    an address that byIP attributes to another allocation).  The converse direction fails: `rekey_witness_memstore`. -/
-theorem index_sound_memstore (ops : List Op) :
+/-- allocator.MemoryAllocationStore, every history in which every `load` (UnmarshalJSON) is address-injective — no two
+    stored records of different allocations share an address; in particular every history without a load: every live
+    allocation is found by its address, and no two live allocations share an address.  SaveAllocation needs no
+    hypothesis (it refuses an address that byIP attributes to another allocation); UnmarshalJSON has no uniqueness
+    check, and without `LoadsInj` the statement is FALSE (`D59_witness_memstore_load`).  `LoadsInj` is sufficient, not
+    necessary (a later record of the list may repair an earlier clash).  The converse direction (every byIP entry
+    points to a live allocation) fails even without loads: `rekey_witness_memstore`. -/
+theorem index_sound_memstore (ops : List Op) (hl : LoadsInj true ops) :
     (∀ id r a, AMap.lookup (run memstore init ops).prim id = some r → r.k1 = some a →
       AMap.lookup (run memstore init ops).i1 a = some id) ∧
     (∀ id id' r r' a, AMap.lookup (run memstore init ops).prim id = some r →
       AMap.lookup (run memstore init ops).prim id' = some r' → r.k1 = some a → r'.k1 = some a → id = id') := by
   have hI : FwdS true (run memstore init ops) :=
-    run_memstore_fwd (fun id r v h => by simp [init] at h) ops
+    run_memstore_fwd (fun id r v h => by simp [init] at h) ops hl
   refine ⟨fun id r a h hk => hI id r a h hk, ?_⟩
   intro id id' r r' a h h' hk hk'
   have x : AMap.lookup (run memstore init ops).i1 a = some id := hI id r a h hk
@@ -105,81 +137,169 @@ theorem index_sound_memstore (ops : List Op) :
   rw [x] at y
   simpa using y
 
-/-! ### partial theorems: histories without key sharing and without un-indexed re-keying -/
+/-- the hypothesis is satisfiable by histories with loads (and trivially by those without), and excludes the witness -/
+example : LoadsInj true [.create (some 1) none (some 1), .load [(1, ⟨none, some 1⟩), (2, ⟨none, some 2⟩)],
+            .create (some 3) none (some 2), .delete 1] := by decide
+example : ¬ LoadsInj true [.load [(1, ⟨none, some 1⟩), (2, ⟨none, some 1⟩)]] := by decide
 
-/-- Every flavour, every history that (`OnePerKey`) never gives one secondary key to two simultaneously live primaries
-    and (`NoRekey`) never changes a key of a live primary along a path that leaves the index alone: in the reached
-    state every live primary's secondary key resolves back to it, and every index entry points to a live primary
-    carrying that key (so no two live primaries share a key).
-    PARTIAL: the full statement (no hypothesis) is false for every flavour but the two cases of `index_sound_submgr`
-    and `index_sound_memstore`; the complement of `OnePerKey` is finding D59, the complement of `NoRekey` is
-    KF-index-rekey. -/
-theorem index_bijection_inv_partial (c : Cfg) (ops : List Op)
-    (h1 : OnePerKey c init ops) (h2 : NoRekey c init ops) :
-    (∀ id r s v, AMap.lookup (run c init ops).prim id = some r → r.key s = some v →
-      AMap.lookup ((run c init ops).idx s) v = some id) ∧
-    (∀ s v id, AMap.lookup ((run c init ops).idx s) v = some id →
-      ∃ r, AMap.lookup (run c init ops).prim id = some r ∧ r.key s = some v) := by
-  have hI := inv_run inv_init ops h1 h2
-  exact ⟨fun id r s v h hk => (hI.slot s).fwd id r v h hk, fun s v id h => (hI.slot s).bwd v id h⟩
+/-! ### partial theorems, PER KEY -/
 
-/-- Same hypotheses: deleting primary `k` in the reached state changes no other primary's record, removes `k`, frees
-    exactly the index entries that resolved to `k`, and leaves every other lookup by key — as the API answers it —
-    unchanged. -/
-theorem index_release_frame_partial (c : Cfg) (ops : List Op)
-    (h1 : OnePerKey c init ops) (h2 : NoRekey c init ops) (k : Nat) (hacc : c.accepts (.delete k) = true) :
-    (∀ id, id ≠ k → AMap.lookup (step c (run c init ops) (.delete k)).1.prim id =
-                     AMap.lookup (run c init ops).prim id) ∧
-    AMap.lookup (step c (run c init ops) (.delete k)).1.prim k = none ∧
-    (∀ s v, AMap.lookup ((step c (run c init ops) (.delete k)).1.idx s) v =
-      if AMap.lookup ((run c init ops).idx s) v = some k then none else AMap.lookup ((run c init ops).idx s) v) ∧
-    (∀ s v, byKey c (step c (run c init ops) (.delete k)).1 s v =
-      if AMap.lookup ((run c init ops).idx s) v = some k then .none else byKey c (run c init ops) s v) := by
-  have hI := inv_run inv_init ops h1 h2
-  have hs : (step c (run c init ops) (.delete k)).1 = (delete c (run c init ops) k).1 := by
+/-- a key that no live primary carries and that has no index entry agrees with the primary map -/
+theorem key_agrees_of_free {s : Bool} {v : Nat} {st : State}
+    (h1 : ∀ id r, AMap.lookup st.prim id = some r → r.key s ≠ some v)
+    (h2 : AMap.lookup (st.idx s) v = none) : KInv s v st :=
+  ⟨fun id r h hk => absurd hk (h1 id r h), fun id h => by rw [h2] at h; cases h⟩
+
+/-- the same, as a check that can be evaluated -/
+def keyFreeB (s : Bool) (v : Nat) (st : State) : Bool :=
+  st.prim.all (fun p => p.2.key s != some v) && (AMap.lookup (st.idx s) v).isNone
+
+theorem key_agrees_of_freeB {s : Bool} {v : Nat} {st : State} (h : keyFreeB s v st = true) : KInv s v st := by
+  simp only [keyFreeB, Bool.and_eq_true, List.all_eq_true, Option.isNone_iff_eq_none] at h
+  apply key_agrees_of_free
+  · intro id r hr
+    have := h.1 (id, r) (AMap.mem_of_lookup hr)
+    simpa using this
+  · exact h.2
+
+/-- Every flavour, every slot `s` and key value `v`.  Take ANY reachable state `st0 = run c init ops0` in which the
+    index entry of `(s, v)` and the live primaries carrying `(s, v)` agree in both directions (`KInv s v st0` — true of
+    the initial state and whenever the key is free), and continue with ANY history `ops` that, FOR THIS KEY, never
+    gives `(s, v)` to a primary while another live primary carries it (`OnePerKeyAt`) and never moves a live primary
+    onto or off `(s, v)` along a path that leaves the index alone (`NoRekeyAt`) — operations on other keys are not
+    restricted in any way.  Then in the reached state every live primary carrying `(s, v)` is what the index entry of
+    `v` resolves to, the entry (if any) points to a live primary carrying `(s, v)`, and at most one live primary
+    carries `(s, v)`.
+    PARTIAL: without the two per-key hypotheses the statement is false (witnesses below); their complements are the
+    findings D59 and KF-index-rekey. -/
+theorem index_bijection_key_partial (c : Cfg) (s : Bool) (v : Nat) (ops0 ops : List Op)
+    (h0 : KInv s v (run c init ops0))
+    (h1 : OnePerKeyAt c s v (run c init ops0) ops) (h2 : NoRekeyAt c s v (run c init ops0) ops) :
+    (∀ id r, AMap.lookup (run c (run c init ops0) ops).prim id = some r → r.key s = some v →
+      AMap.lookup ((run c (run c init ops0) ops).idx s) v = some id) ∧
+    (∀ id, AMap.lookup ((run c (run c init ops0) ops).idx s) v = some id →
+      ∃ r, AMap.lookup (run c (run c init ops0) ops).prim id = some r ∧ r.key s = some v) ∧
+    (∀ id id' r r', AMap.lookup (run c (run c init ops0) ops).prim id = some r →
+      AMap.lookup (run c (run c init ops0) ops).prim id' = some r' → r.key s = some v → r'.key s = some v →
+      id = id') := by
+  have hK := kinv_run h0 ops h1 h2
+  exact ⟨hK.fwd, hK.bwd, fun id id' r r' h h' hk hk' => hK.unique h' hk' h hk⟩
+
+/-- Same per-key hypotheses: deleting primary `k` in the reached state frees the entry of `(s, v)` exactly if it
+    resolved to `k` and otherwise leaves it — and the answer of the lookup by that key as the API gives it — unchanged.
+    (That the delete changes no other primary's record and removes `k` needs no hypothesis: `delete_frame_prim`.) -/
+theorem index_release_frame_key_partial (c : Cfg) (s : Bool) (v : Nat) (ops0 ops : List Op)
+    (h0 : KInv s v (run c init ops0))
+    (h1 : OnePerKeyAt c s v (run c init ops0) ops) (h2 : NoRekeyAt c s v (run c init ops0) ops)
+    (k : Nat) (hacc : c.accepts (.delete k) = true) :
+    AMap.lookup ((step c (run c (run c init ops0) ops) (.delete k)).1.idx s) v =
+      (if AMap.lookup ((run c (run c init ops0) ops).idx s) v = some k then none
+       else AMap.lookup ((run c (run c init ops0) ops).idx s) v) ∧
+    byKey c (step c (run c (run c init ops0) ops) (.delete k)).1 s v =
+      (if AMap.lookup ((run c (run c init ops0) ops).idx s) v = some k then .none
+       else byKey c (run c (run c init ops0) ops) s v) := by
+  have hK := kinv_run h0 ops h1 h2
+  have hs : (step c (run c (run c init ops0) ops) (.delete k)).1 = (delete c (run c (run c init ops0) ops) k).1 := by
     simp [step, hacc]
   rw [hs]
-  obtain ⟨f1, f2, f3⟩ := delete_frame (c := c) hI k
-  refine ⟨f1, f2, f3, ?_⟩
-  intro s v
+  have f3 := delete_frame_at (c := c) hK k
+  obtain ⟨f1, _⟩ := delete_prim c (run c (run c init ops0) ops) k
+  refine ⟨f3, ?_⟩
   unfold byKey
   rw [f3]
-  by_cases e : AMap.lookup ((run c init ops).idx s) v = some k
+  by_cases e : AMap.lookup ((run c (run c init ops0) ops).idx s) v = some k
   · simp [e]
   · simp only [e, if_false]
-    cases e2 : AMap.lookup ((run c init ops).idx s) v with
+    cases e2 : AMap.lookup ((run c (run c init ops0) ops).idx s) v with
     | none => rfl
     | some id =>
       have hne : id ≠ k := by intro x; subst x; exact e e2
       simp only [f1 id hne]
 
-/-- the hypotheses are satisfiable by histories that create, re-key (where the code maintains the index), assign and
-    delete; and the conclusion is not vacuous there (two live primaries, resolvable keys) -/
-example : OnePerKey stLease init [.create none (some 1) (some 1), .create none (some 2) (some 2), .delete 1,
-            .create none (some 1) (some 1)] ∧
-          NoRekey stLease init [.create none (some 1) (some 1), .create none (some 2) (some 2), .delete 1,
-            .create none (some 1) (some 1)] := by decide
+/-- Every flavour, every state (no hypothesis): deleting primary `k` changes no other primary's record and removes `k`. -/
+theorem delete_frame_prim (c : Cfg) (st : State) (k : Nat) (hacc : c.accepts (.delete k) = true) :
+    (∀ id, id ≠ k → AMap.lookup (step c st (.delete k)).1.prim id = AMap.lookup st.prim id) ∧
+    AMap.lookup (step c st (.delete k)).1.prim k = none := by
+  have hs : (step c st (.delete k)).1 = (delete c st k).1 := by simp [step, hacc]
+  rw [hs]
+  exact delete_prim c st k
 
-example : OnePerKey stSub init [.create none (some 1) (some 1), .update 1 (some 2) none, .create none (some 1) none] ∧
-          NoRekey stSub init [.create none (some 1) (some 1), .update 1 (some 2) none, .create none (some 1) none] := by
+/-- All keys at once (corollary of `index_bijection_key_partial` from the initial state): if the history is clean for
+    every key, index and primary map are mutually inverse. -/
+theorem index_bijection_inv_partial (c : Cfg) (ops : List Op)
+    (h1 : ∀ s v, OnePerKeyAt c s v init ops) (h2 : ∀ s v, NoRekeyAt c s v init ops) :
+    (∀ id r s v, AMap.lookup (run c init ops).prim id = some r → r.key s = some v →
+      AMap.lookup ((run c init ops).idx s) v = some id) ∧
+    (∀ s v id, AMap.lookup ((run c init ops).idx s) v = some id →
+      ∃ r, AMap.lookup (run c init ops).prim id = some r ∧ r.key s = some v) :=
+  ⟨fun id r s v => (kinv_run (kinv_init s v) ops (h1 s v) (h2 s v)).fwd id r,
+   fun s v => (kinv_run (kinv_init s v) ops (h1 s v) (h2 s v)).bwd⟩
+
+/-- All keys at once (corollary of `index_release_frame_key_partial`). -/
+theorem index_release_frame_partial (c : Cfg) (ops : List Op)
+    (h1 : ∀ s v, OnePerKeyAt c s v init ops) (h2 : ∀ s v, NoRekeyAt c s v init ops)
+    (k : Nat) (hacc : c.accepts (.delete k) = true) (s : Bool) (v : Nat) :
+    byKey c (step c (run c init ops) (.delete k)).1 s v =
+      (if AMap.lookup ((run c init ops).idx s) v = some k then .none else byKey c (run c init ops) s v) :=
+  (index_release_frame_key_partial c s v [] ops (kinv_init s v) (h1 s v) (h2 s v) k hacc).2
+
+/-! ### non-vacuity: an offending operation on key X, a conclusion for the clean key Y -/
+
+/-- state.Store leases: MAC 1 is given to two live leases (D59) and lease 1 is then re-keyed from MAC 1 to MAC 3 by
+    UpdateLease (KF-index-rekey); MAC 2 is clean throughout … -/
+def mixedLease : List Op :=
+  [.create none (some 1) none, .create none (some 1) none, .create none (some 2) (some 5), .delete 2,
+   .update 1 (some 3) none]
+
+example : OnePerKeyAt stLease false 2 init mixedLease ∧ NoRekeyAt stLease false 2 init mixedLease := by decide
+example : ¬ OnePerKeyAt stLease false 1 init mixedLease := by decide
+example : ¬ NoRekeyAt stLease false 3 init mixedLease := by decide
+example : ¬ NoRekeyAt stLease false 1 init mixedLease := by decide
+
+/-- … so the theorem applies to MAC 2 and yields a non-trivial conclusion: lease 3 is live with MAC 2 and
+    GetLeaseByMAC(2) resolves to it — although the index is broken for MACs 1 and 3 in the same state. -/
+example : AMap.lookup ((run stLease init mixedLease).idx false) 2 = some 3 :=
+  (index_bijection_key_partial stLease false 2 [] mixedLease (kinv_init false 2) (by decide) (by decide)).1
+    3 ⟨some 2, some 5⟩ (by decide) rfl
+example : byKey stLease (run stLease init mixedLease) false 1 = .none ∧
+          byKey stLease (run stLease init mixedLease) false 3 = .none ∧
+          get (run stLease init mixedLease) 1 = .found 1 ⟨some 3, none⟩ := by decide
+
+/-- restarting after the damage: after `mixedLease` nobody carries MAC 1 and its entry is gone (it was deleted by value
+    together with lease 2), so the key is free again and a further history that is clean for MAC 1 is covered, starting
+    from that reachable state. -/
+example : OnePerKeyAt stLease false 1 (run stLease init mixedLease) [.create none (some 1) none, .delete 3] ∧
+          NoRekeyAt stLease false 1 (run stLease init mixedLease) [.create none (some 1) none, .delete 3] := by decide
+example : KInv false 1 (run stLease init mixedLease) := key_agrees_of_freeB (by decide)
+
+/-- subscriber.Manager: address 1 is shared by sessions 1 and 2 (D59) and session 3 is re-assigned from address 2 to
+    address 3 (KF-index-rekey); address 4 is clean -/
+def mixedSubmgr : List Op :=
+  [.create none (some 1) none, .create none (some 2) none, .create none (some 3) none, .create none (some 4) none,
+   .setKey 1 true 1, .setKey 2 true 1, .setKey 3 true 2, .setKey 3 true 3, .setKey 4 true 4, .delete 2]
+
+example : OnePerKeyAt submgr true 4 init mixedSubmgr ∧ NoRekeyAt submgr true 4 init mixedSubmgr ∧
+          ¬ OnePerKeyAt submgr true 1 init mixedSubmgr ∧ ¬ NoRekeyAt submgr true 2 init mixedSubmgr := by decide
+
+/-- stSub (UpdateSubscriber re-indexes): re-keying is allowed by `NoRekeyAt`; memstore: a refused save is exempt -/
+example : OnePerKeyAt stSub false 2 init [.create none (some 1) (some 1), .update 1 (some 2) none, .create none (some 1) none] ∧
+          NoRekeyAt stSub false 2 init [.create none (some 1) (some 1), .update 1 (some 2) none, .create none (some 1) none] ∧
+          NoRekeyAt stSub false 1 init [.create none (some 1) (some 1), .update 1 (some 2) none, .create none (some 1) none] := by
   decide
 
-example : OnePerKey submgr init [.create none (some 1) none, .create none (some 1) none, .setKey 1 true 1,
-            .create none (some 2) none, .setKey 2 true 2, .delete 1, .setKey 2 true 2] ∧
-          NoRekey submgr init [.create none (some 1) none, .create none (some 1) none, .setKey 1 true 1,
-            .create none (some 2) none, .setKey 2 true 2, .delete 1, .setKey 2 true 2] := by decide
-
-example : OnePerKey memstore init [.create (some 1) none (some 1), .create (some 2) none (some 1),
+example : OnePerKeyAt memstore true 1 init [.create (some 1) none (some 1), .create (some 2) none (some 1),
             .create (some 1) none (some 1), .delete 1, .create (some 2) none (some 1)] ∧
-          NoRekey memstore init [.create (some 1) none (some 1), .create (some 2) none (some 1),
+          NoRekeyAt memstore true 1 init [.create (some 1) none (some 1), .create (some 2) none (some 1),
             .create (some 1) none (some 1), .delete 1, .create (some 2) none (some 1)] := by decide
 
-example : stLease.accepts (.delete 1) = true ∧ submgr.accepts (.delete 1) = true ∧
-          stSub.accepts (.delete 1) = true ∧ memstore.accepts (.delete 1) = true := by decide
+/-- memstore loads: address 1 is shared by the stored records, address 2 is clean -/
+example : OnePerKeyAt memstore true 2 init [.load [(1, ⟨none, some 1⟩), (2, ⟨none, some 1⟩), (3, ⟨none, some 2⟩)]] ∧
+          NoRekeyAt memstore true 2 init [.load [(1, ⟨none, some 1⟩), (2, ⟨none, some 1⟩), (3, ⟨none, some 2⟩)]] ∧
+          ¬ OnePerKeyAt memstore true 1 init [.load [(1, ⟨none, some 1⟩), (2, ⟨none, some 1⟩), (3, ⟨none, some 2⟩)]] := by
+  decide
 
-/-- the hypotheses do exclude the defect histories -/
-example : ¬ OnePerKey stLease init [.create none (some 1) none, .create none (some 1) none] := by decide
-example : ¬ NoRekey stLease init [.create none (some 1) none, .update 1 (some 2) none] := by decide
+example : stLease.accepts (.delete 1) = true ∧ submgr.accepts (.delete 1) = true ∧ stNat.accepts (.delete 1) = true ∧
+          stSub.accepts (.delete 1) = true ∧ memstore.accepts (.delete 1) = true := by decide
 
 /-! ### witnesses: the defects on the model (the same histories fail on the real code, corpus/index) -/
 
@@ -206,6 +326,28 @@ theorem D59_witness_statestore_sub :
       = .found 2 ⟨some 1, none⟩ ∧
     byKey stSub (run stSub init [.create none (some 1) none, .create none (some 1) none, .update 1 (some 2) none])
       false 1 = .none := by decide
+
+/-- D59, state.Store NAT bindings: two bindings with the same public endpoint (natByPublic overwritten), the older one
+    is deleted (by value): the newer one is live, but GetNATBindingByPublic finds nothing. -/
+theorem D59_witness_statestore_nat :
+    get (run stNat init [.create none (some 1) (some 1), .create none (some 2) (some 1), .delete 1]) 2
+      = .found 2 ⟨some 2, some 1⟩ ∧
+    byKey stNat (run stNat init [.create none (some 1) (some 1), .create none (some 2) (some 1), .delete 1]) true 1
+      = .none := by decide
+
+/-- D59 through the LOAD path of MemoryAllocationStore: UnmarshalJSON of two stored allocations with address 1
+    rebuilds byIP without a uniqueness check (the later record wins): allocation 1 is live with address 1 but
+    GetByIP(1) answers allocation 2; after RemoveAllocation of allocation 2 (byIP[1] deleted by value) allocation 1 is
+    still live and GetByIP(1) finds nothing — and SaveAllocation then gives address 1 to a third allocation. -/
+theorem D59_witness_memstore_load :
+    get (run memstore init [.load [(1, ⟨none, some 1⟩), (2, ⟨none, some 1⟩)]]) 1 = .found 1 ⟨none, some 1⟩ ∧
+    byKey memstore (run memstore init [.load [(1, ⟨none, some 1⟩), (2, ⟨none, some 1⟩)]]) true 1
+      = .found 2 ⟨none, some 1⟩ ∧
+    get (run memstore init [.load [(1, ⟨none, some 1⟩), (2, ⟨none, some 1⟩)], .delete 2]) 1
+      = .found 1 ⟨none, some 1⟩ ∧
+    byKey memstore (run memstore init [.load [(1, ⟨none, some 1⟩), (2, ⟨none, some 1⟩)], .delete 2]) true 1 = .none ∧
+    (step memstore (run memstore init [.load [(1, ⟨none, some 1⟩), (2, ⟨none, some 1⟩)], .delete 2])
+      (.create (some 3) none (some 1))).2 = .okId 3 := by decide
 
 /-- KF-index-rekey, MemoryAllocationStore: allocation 1 is saved with address 1 and re-saved with address 2;
     byIP[1] stays: address 1 still answers with allocation 1 (which holds address 2), keeps answering after
